@@ -229,7 +229,8 @@ Definition delete_child (n : tree) (sl : slot) (child : tree) (token : ascii) : 
     [pathLen] is computed before the leading backslash of an escape is dropped,
     so the length test lets a path through that is one byte shorter than the
     child's. *)
-Fixpoint del_node (fuel : nat) (n : tree) (path : str) (f : route -> bool) : option tree + err :=
+Fixpoint del_node (fx : fixes) (fuel : nat) (n : tree) (path : str) (f : route -> bool) (in_static : bool)
+  : option tree + err :=
   match fuel with
   | O => inr EPanic
   | S fuel' =>
@@ -240,28 +241,34 @@ Fixpoint del_node (fuel : nat) (n : tree) (path : str) (f : route -> bool) : opt
       | _ =>
         let vs := filter (fun v => negb (f v)) (t_values n) in
         if Nat.eqb (length vs) (length (t_values n)) then inl None
-        else inl (Some (set_values vs (match vs with [] => set_bt true n | _ => n end)))
+        else inl (Some (set_values vs (match vs with
+                                       | [] => set_bt true (if fix_F5 fx then set_keys [] n else n)
+                                       | _ => n
+                                       end)))
       end
     | token :: _ =>
+      (* fixes/C06-F3.diff: ':' '*' and escapes are special only at the start of a segment *)
+      let literal := fix_F3 fx && in_static in
       let via (sl : slot) (child : tree) (next : str) : option tree + err :=
-        match del_node fuel' child next f with
+        match del_node fx fuel' child next f false with
         | inl (Some c') =>
           inl (Some (if is_nil (t_values c') then delete_child n sl c' token else put_child n sl c'))
         | other => other
         end in
-      if Ascii.eqb token ch_colon then
+      if negb literal && Ascii.eqb token ch_colon then
         match t_wild n with
         | None => inl None
         | Some w => via SWild w (skipn (next_separator path) path)
         end
-      else if Ascii.eqb token ch_star then
+      else if negb literal && Ascii.eqb token ch_star then
         match t_catch n with
         | None => inl None
         | Some c => via SCatch c []
         end
       else
-        let path_len := length path in
-        let esc := is_escape path in
+        let esc := negb literal && is_escape path in
+        (* fixes/C06-F4.diff: pathLen is taken after the backslash is dropped *)
+        let path_len := if fix_F4 fx && esc then length (tl path) else length path in
         let path := if esc then tl path else path in
         let token := if esc then match path with c :: _ => c | [] => token end else token in
         match static_get (t_statics n) token with
@@ -271,7 +278,7 @@ Fixpoint del_node (fuel : nat) (n : tree) (path : str) (f : route -> bool) : opt
           if Nat.leb cl path_len then
             if Nat.ltb (length path) cl then inr EPanic
             else if str_eqb (t_path child) (firstn cl path) then
-              match del_node fuel' child (skipn cl path) f with
+              match del_node fx fuel' child (skipn cl path) f (negb (Ascii.eqb token ch_slash)) with
               | inl (Some c') =>
                 inl (Some (if is_nil (t_values c') then delete_child n (SStatic token) c' token
                            else put_child n (SStatic token) c'))
@@ -283,8 +290,8 @@ Fixpoint del_node (fuel : nat) (n : tree) (path : str) (f : route -> bool) : opt
     end
   end.
 
-Definition t_delete (root : tree) (path : str) (f : route -> bool) : tree + err :=
-  match del_node (S (length path)) root path f with
+Definition t_delete (fx : fixes) (root : tree) (path : str) (f : route -> bool) : tree + err :=
+  match del_node fx (S (length path)) root path f false with
   | inl (Some t) => inl t
   | inl None => inr EDelete
   | inr e => inr e
@@ -351,9 +358,9 @@ Definition t_find_rule (faithful : bool) (root : tree) (path : str) (m : route -
 (** ** the repository over the tree *)
 
 Definition t_add1 (t : tree) (v : route) : tree + err := t_add t (rt_path v) v (rt_bt v).
-Definition t_del1 (t : tree) (r : rule) (v : route) : tree + err :=
-  t_delete t (rt_path v) (fun x => sameas (rt_rule x) r).
+Definition t_del1 (fx : fixes) (t : tree) (r : rule) (v : route) : tree + err :=
+  t_delete fx t (rt_path v) (del_matcher fx r v).
 
 Definition trepo := grepo tree.
 Definition t_empty_repo : trepo := {| known := []; index := t_empty |}.
-Definition t_step : trepo -> op -> trepo * option err := gstep tree t_add1 t_del1.
+Definition t_step (fx : fixes) : trepo -> op -> trepo * option err := gstep tree t_add1 (t_del1 fx).
